@@ -293,7 +293,9 @@ def mmlTranspose : P Unit := do
     let v ← expectSigned
     trackOp (.addEvent ev_TRANSPOSE_REL v 0 0)
   else if c == 123 then do
-    let (raw, _) ← scanC (· == 125)
+    let (raw, e) ← scanC (· == 125)
+    -- since fix 524ebc5: a missing `}` is an input error (before, the reader carried on past the end)
+    if e != 125 then parseError "unterminated key signature"
     let str := raw.filter fun b => !isSpace (schar b)
     match (← track).setKeySignature str with
     | .ok t => modifyTrack fun _ => t
